@@ -2,7 +2,7 @@
 # tools/seed_verify.sh <PROP> <N>   - confirm seeded change N of the sub-agent for property PROP in its scratch worktree:
 #   patch applies, library builds, existing suite passes, demonstration fails with the patch and passes without it.
 set -u
-P=$1; N=$2; WT=/tmp/wt-$P; S=$WT/SEEDED
+P=$1; N=$2; WT=${WTPREFIX:-/tmp/wt-}$P; S=$WT/SEEDED
 export GOFLAGS=-mod=mod GOPROXY=off
 cd $WT || exit 2
 git checkout -q -- . ; git status --short | grep -v SEEDED
